@@ -23,6 +23,7 @@ def check(repo, rep, tier):
     rep.rule('R2.4', 'retrieve_tree: leaf per token in order, categories[item.cat], left before right, one tree per item')
     rep.rule('R2.5', 'category table append-only, id = position, duplicates rejected, both callbacks use it')
     rc.r_backpointers(m, rep, 'R2.1')
+    rc.r_items_immutable(m, rep, 'R2.1')
     rc.r_leaf_loop(m, rep, 'R2.2')
     rc.r_best(m, rep, 'R2.2')
     rc.r_chart(m, rep, 'R2.1')
